@@ -115,15 +115,19 @@ theorem inv_discard (s : State) (h : Inv s) : Inv (discard s) := by
 theorem inv_lockSection (s : State) (hh : Nat) (h : Inv s) : Inv (lockSection s hh) := by
   have hsub := cleanup_sub s.cap (hh - s.lastHeight) s.lastHeight s.ring s.len
   refine ⟨h.cap_pos, fun p x hx => h.slot p x (hsub p x hx), fun p x hx => h.win p x (hsub p x hx), ?_, ?_⟩
-  · intro h' hp; simp only [lockSection] at hp; split at hp <;> cases hp
+  · intro h' hp; simp only [lockSection] at hp; split at hp
+    · cases hp
+    · split at hp <;> cases hp
   · intro b pos hp
     simp only [lockSection] at hp
     split at hp
     · rcases hp with hp | hp <;> cases hp
     · rename_i b' hb
-      rcases hp with hp | hp
-      · cases hp; exact ⟨h.slot _ _ hb, h.win _ _ hb⟩
-      · cases hp
+      split at hp
+      · rcases hp with hp | hp <;> cases hp
+      · rcases hp with hp | hp
+        · cases hp; exact ⟨h.slot _ _ hb, h.win _ _ hb⟩
+        · cases hp
 
 theorem inv_addItem (s : State) (b : Elem) (pos : Nat) (hpc : s.pc = .holding b pos) (h : Inv s) :
     Inv (addItem s b pos) := by
